@@ -157,8 +157,10 @@ pub fn check(v: &View, vd: &mut Verdict) {
             vd.class("no_timeout");
         }
     }
-    // state intact: fold rules (began has the abandoned id, done has not)
+    // state intact: fold rules (began has the abandoned id, done has not); the timers the actor had armed
+    // are part of that state
     super::c01::structural(v, vd, "C11");
+    super::c10::timer_died_early(v, vd, "C11");
     if completed && abandoned {
         vd.class("completed_and_abandoned");
     }
